@@ -304,4 +304,285 @@ theorem eval_frame (c : Cfg) : ∀ n, Frame c (eval c n) := by
               · cases he
                 exact ⟨fun q => (fz.1 q).trans (fa.1 q), fun q => (fz.2 q).trans (fa.2 q)⟩
 
+/-! ### the same for evaluations that RAISE: the state carried by the failure is the caller's -/
+
+/-- a failing `ev` leaves the caller's dict and objects as they were -/
+def FrameE (c : Cfg) (ev : Expr → Env → Heap → Res) : Prop :=
+  ∀ e ρ h er ρ' h', ev e ρ h = .error (er, ρ', h') →
+    (c.q.callCopies = true → ρ' = ρ) ∧ (c.q.heapSafe = true → h' = h)
+
+section
+variable {c : Cfg} {ev : Expr → Env → Heap → Res}
+
+theorem operands_frameE (hf : Frame c ev) (hfe : FrameE c ev) {a b : Expr} {ρ : Env} {h : Heap}
+    {er : Err} {ρ' : Env} {h' : Heap} (he : operands ev a b ρ h = .error (er, ρ', h')) :
+    (c.q.callCopies = true → ρ' = ρ) ∧ (c.q.heapSafe = true → h' = h) := by
+  unfold operands at he
+  split at he
+  · rename_i e ha
+    cases he; exact hfe _ _ _ _ _ _ ha
+  · rename_i va ρ1 h1 ha
+    have fa := hf _ _ _ _ _ _ ha
+    split at he
+    · cases he
+    · split at he
+      · rename_i e hb
+        cases he
+        have fb := hfe _ _ _ _ _ _ hb
+        exact ⟨fun q => (fb.1 q).trans (fa.1 q), fun q => (fb.2 q).trans (fa.2 q)⟩
+      · rename_i vb ρ2 h2 hb
+        have fb := hf _ _ _ _ _ _ hb
+        split at he
+        · cases he
+        · cases he
+        · cases he
+          exact ⟨fun q => (fb.1 q).trans (fa.1 q), fun q => (fb.2 q).trans (fa.2 q)⟩
+    · cases he; exact fa
+
+theorem forLoop_heapE (hf : Frame c ev) (hfe : FrameE c ev) (hq : c.q.heapSafe = true) (x : Name) (body : Expr) :
+    ∀ (items : List Item) (ρc : Env) (h : Heap) (er : Err) (ρ' : Env) (h' : Heap),
+      forLoop ev x body items ρc h = .error (er, ρ', h') → h' = h := by
+  intro items
+  induction items with
+  | nil => intro ρc h er ρ' h' he; simp [forLoop] at he
+  | cons it rest ih =>
+    intro ρc h er ρ' h' he
+    unfold forLoop at he
+    split at he
+    · rename_i e hb
+      cases he; exact (hfe _ _ _ _ _ _ hb).2 hq
+    · rename_i v1 ρ1 h1 hb
+      have fb := (hf _ _ _ _ _ _ hb).2 hq
+      split at he
+      · rename_i e hr
+        cases he; exact (ih _ _ _ _ _ hr).trans fb
+      · cases he
+
+theorem quantLoop_heapE (hf : Frame c ev) (hfe : FrameE c ev) (hq : c.q.heapSafe = true) (s : Bool) (x : Name)
+    (body : Expr) :
+    ∀ (items : List Item) (ρc : Env) (h : Heap) (er : Err) (ρ' : Env) (h' : Heap),
+      quantLoop ev s x body items ρc h = .error (er, ρ', h') → h' = h := by
+  intro items
+  induction items with
+  | nil => intro ρc h er ρ' h' he; simp [quantLoop] at he
+  | cons it rest ih =>
+    intro ρc h er ρ' h' he
+    unfold quantLoop at he
+    split at he
+    · rename_i e hb
+      cases he; exact (hfe _ _ _ _ _ _ hb).2 hq
+    · rename_i v1 ρ1 h1 hb
+      have fb := (hf _ _ _ _ _ _ hb).2 hq
+      split at he
+      · cases he; exact fb
+      · split at he
+        · cases he
+        · exact (ih _ _ _ _ _ he).trans fb
+
+theorem evalArgs_frameE (hf : Frame c ev) (hfe : FrameE c ev) :
+    ∀ (as : List Expr) (ρ : Env) (h : Heap) (er : Err) (ρ' : Env) (h' : Heap),
+      evalArgs ev as ρ h = .error (er, ρ', h') →
+      (c.q.callCopies = true → ρ' = ρ) ∧ (c.q.heapSafe = true → h' = h) := by
+  intro as
+  induction as with
+  | nil => intro ρ h er ρ' h' he; simp [evalArgs] at he
+  | cons a rest ih =>
+    intro ρ h er ρ' h' he
+    unfold evalArgs at he
+    split at he
+    · rename_i e ha
+      cases he; exact hfe _ _ _ _ _ _ ha
+    · rename_i v1 ρ1 h1 ha
+      have fa := hf _ _ _ _ _ _ ha
+      split at he
+      · rename_i e hr
+        cases he
+        have fr := ih _ _ _ _ _ hr
+        exact ⟨fun q => (fr.1 q).trans (fa.1 q), fun q => (fr.2 q).trans (fa.2 q)⟩
+      · cases he
+
+theorem applyFn_frameE (hfe : FrameE c ev) {ps : List Name} {body : Expr} {cap : Env} {args : List Val}
+    {ρ : Env} {h : Heap} {er : Err} {ρ' : Env} {h' : Heap}
+    (he : applyFn ev c ps body cap args ρ h = .error (er, ρ', h')) :
+    (c.q.callCopies = true → ρ' = ρ) ∧ (c.q.heapSafe = true → h' = h) := by
+  unfold applyFn at he
+  split at he
+  · cases he; exact ⟨fun _ => rfl, fun _ => rfl⟩
+  · split at he
+    · rename_i e ρ1 h1 hb
+      have fb := hfe _ _ _ _ _ _ hb
+      cases he
+      exact ⟨fun q => by simp [q], fb.2⟩
+    · cases he
+
+end
+
+/-- a failing evaluation at any depth leaves the caller's dict and objects as they were -/
+theorem eval_frameE (c : Cfg) : ∀ n, FrameE c (eval c n) := by
+  intro n
+  induction n with
+  | zero => intro e ρ h er ρ' h' he; simp only [eval] at he; cases he; exact ⟨fun _ => rfl, fun _ => rfl⟩
+  | succ n ihe =>
+    have ih := eval_frame c n
+    have both : ∀ {ρa ρb ρc : Env} {ha hb hc : Heap},
+        ((c.q.callCopies = true → ρb = ρa) ∧ (c.q.heapSafe = true → hb = ha)) →
+        ((c.q.callCopies = true → ρc = ρb) ∧ (c.q.heapSafe = true → hc = hb)) →
+        ((c.q.callCopies = true → ρc = ρa) ∧ (c.q.heapSafe = true → hc = ha)) :=
+      fun f g => ⟨fun q => (g.1 q).trans (f.1 q), fun q => (g.2 q).trans (f.2 q)⟩
+    intro e ρ h er ρ' h' he
+    cases e with
+    | int k => rw [eval] at he; cases he
+    | var x =>
+      rw [eval] at he
+      split at he
+      · cases he
+      · cases he; exact ⟨fun _ => rfl, fun _ => rfl⟩
+    | empty => rw [eval] at he; cases he
+    | dt l z => rw [eval] at he; cases he
+    | fn ps body => rw [eval] at he; cases he
+    | durLit s => rw [eval] at he; cases he
+    | paren e => rw [eval] at he; exact ihe _ _ _ _ _ _ he
+    | seq a b =>
+      rw [eval] at he
+      split at he
+      · rename_i e ha; cases he; exact ihe _ _ _ _ _ _ ha
+      · rename_i va ρ1 h1 ha
+        split at he
+        · rename_i e hb; cases he; exact both (ih _ _ _ _ _ _ ha) (ihe _ _ _ _ _ _ hb)
+        · cases he
+    | add a b =>
+      rw [eval] at he
+      split at he
+      · rename_i e ho; cases he; exact operands_frameE ih ihe ho
+      · cases he
+      · rename_i x y ρ2 h2 ho
+        split at he
+        · cases he
+        · cases he; exact operands_frame ih ho
+    | sub a b =>
+      rw [eval] at he
+      split at he
+      · rename_i e ho; cases he; exact operands_frameE ih ihe ho
+      · cases he
+      · rename_i x y ρ2 h2 ho
+        split at he
+        · cases he
+        · cases he; exact operands_frame ih ho
+    | eq a b =>
+      rw [eval] at he
+      split at he
+      · rename_i e ha; cases he; exact ihe _ _ _ _ _ _ ha
+      · rename_i va ρ1 h1 ha
+        split at he
+        · rename_i e hb; cases he; exact both (ih _ _ _ _ _ _ ha) (ihe _ _ _ _ _ _ hb)
+        · rename_i vb ρ2 h2 hb
+          split at he
+          · cases he; exact both (ih _ _ _ _ _ _ ha) (ih _ _ _ _ _ _ hb)
+          · cases he
+    | tzOf e =>
+      rw [eval] at he
+      split at he
+      · rename_i e ha; cases he; exact ihe _ _ _ _ _ _ ha
+      · rename_i v1 ρ1 h1 ha
+        split at he
+        · cases he; exact ih _ _ _ _ _ _ ha
+        · cases he
+    | letE x e body =>
+      rw [eval] at he
+      split at he
+      · rename_i er1 ρ1 h1 ha
+        cases he
+        exact ⟨fun _ => rfl, (ihe _ _ _ _ _ _ ha).2⟩
+      · rename_i v1 ρ1 h1 ha
+        split at he
+        · rename_i er2 ρ2 h2 hb
+          cases he
+          exact ⟨fun _ => rfl, fun q => ((ihe _ _ _ _ _ _ hb).2 q).trans ((ih _ _ _ _ _ _ ha).2 q)⟩
+        · cases he
+    | forE x r body =>
+      rw [eval] at he
+      split at he
+      · rename_i er1 ρ1 h1 ha
+        cases he
+        exact ⟨fun _ => rfl, (ihe _ _ _ _ _ _ ha).2⟩
+      · rename_i v1 ρ1 h1 ha
+        split at he
+        · rename_i er2 ρ2 h2 hb
+          cases he
+          exact ⟨fun _ => rfl, fun q => (forLoop_heapE ih ihe q _ _ _ _ _ _ _ _ hb).trans ((ih _ _ _ _ _ _ ha).2 q)⟩
+        · cases he
+    | someE x r body =>
+      rw [eval] at he
+      split at he
+      · rename_i er1 ρ1 h1 ha
+        cases he
+        exact ⟨fun _ => rfl, (ihe _ _ _ _ _ _ ha).2⟩
+      · rename_i v1 ρ1 h1 ha
+        split at he
+        · rename_i er2 ρ2 h2 hb
+          cases he
+          exact ⟨fun _ => rfl, fun q => (quantLoop_heapE ih ihe q _ _ _ _ _ _ _ _ _ hb).trans ((ih _ _ _ _ _ _ ha).2 q)⟩
+        · cases he
+    | everyE x r body =>
+      rw [eval] at he
+      split at he
+      · rename_i er1 ρ1 h1 ha
+        cases he
+        exact ⟨fun _ => rfl, (ihe _ _ _ _ _ _ ha).2⟩
+      · rename_i v1 ρ1 h1 ha
+        split at he
+        · rename_i er2 ρ2 h2 hb
+          cases he
+          exact ⟨fun _ => rfl, fun q => (quantLoop_heapE ih ihe q _ _ _ _ _ _ _ _ _ hb).trans ((ih _ _ _ _ _ _ ha).2 q)⟩
+        · cases he
+    | call0 f =>
+      rw [eval] at he
+      split at he
+      · rename_i e hfv; cases he; exact ihe _ _ _ _ _ _ hfv
+      · rename_i ps body cap ρ1 h1 hfv
+        exact both (ih _ _ _ _ _ _ hfv) (applyFn_frameE ihe he)
+      · rename_i v ρ1 h1 _ hfv
+        cases he; exact ih _ _ _ _ _ _ hfv
+    | call f a =>
+      rw [eval] at he
+      split at he
+      · rename_i e hfv; cases he; exact ihe _ _ _ _ _ _ hfv
+      · rename_i ps body cap ρ1 h1 hfv
+        split at he
+        · rename_i e hargs
+          cases he
+          exact both (ih _ _ _ _ _ _ hfv) (evalArgs_frameE ih ihe _ _ _ _ _ _ hargs)
+        · rename_i vs ρ2 h2 hargs
+          exact both (both (ih _ _ _ _ _ _ hfv) (evalArgs_frame ih _ _ _ _ _ _ hargs)) (applyFn_frameE ihe he)
+      · rename_i v ρ1 h1 _ hfv
+        cases he; exact ih _ _ _ _ _ _ hfv
+    | adjust1 e =>
+      rw [eval] at he
+      split at he
+      · rename_i e ha; cases he; exact ihe _ _ _ _ _ _ ha
+      · cases he
+      · rename_i x ρ1 h1 ha
+        split at he
+        · cases he
+        · cases he; exact ih _ _ _ _ _ _ ha
+      · rename_i v ρ1 h1 _ _ ha
+        cases he; exact ih _ _ _ _ _ _ ha
+    | adjust2 e z =>
+      rw [eval] at he
+      split at he
+      · rename_i e ha; cases he; exact ihe _ _ _ _ _ _ ha
+      · rename_i v ρ1 h1 ha
+        split at he
+        · cases he; exact ih _ _ _ _ _ _ ha
+        · split at he
+          · rename_i e hz; cases he; exact both (ih _ _ _ _ _ _ ha) (ihe _ _ _ _ _ _ hz)
+          · rename_i vz ρ2 h2 hz
+            split at he
+            · cases he; exact both (ih _ _ _ _ _ _ ha) (ih _ _ _ _ _ _ hz)
+            · split at he
+              · split at he
+                · cases he
+                · cases he; exact both (ih _ _ _ _ _ _ ha) (ih _ _ _ _ _ _ hz)
+              · cases he
+
 end EPV.Scope
